@@ -16,7 +16,7 @@ ID = "C14"
 LEVEL = "exploration"
 RULE = (
     "shapes (towers x steps) in {1x1, 1x4, 3x1, 2x3, 4x2} x strategies {towers, time, both} x workers {1, 2, 3, 5} x delay schemes {none, "
-    "random, adversarial} x parent NUM_THREADS {1, 4} x cache {off, on + explicit halo, on + default halo} x {distinct towers, twin towers "
+    "random, adversarial} x parent NUM_THREADS {1, 4} x cache {off, on + explicit halo, on + default halo} x timestamps {none, ISO, not lexicographically ordered, repeated, descending, free labels} x {distinct towers, twin towers "
     "at one position/height, equal-height towers at different positions, repeated met conditions}; plus the serial timeseries and multitower drivers.  Every entry is compared with "
     "the serially computed single run (fields within 1e-12 of the maximum, bitwise counted; names, order, timestamps, params exactly). "
     "non-trivial = parallel call with >= 2 tasks; distinct = distinct (case idx, strategy, workers, delay scheme); completion orders "
@@ -71,8 +71,17 @@ def make_config(rng, nt, ns, cache_mode, twins, repeats):
         mol = [float(rng.choice([-1, 1]) * rng.uniform(60, 400)) for _ in range(ns)]
     met = {"wind_dir": wdir if ns > 1 else wdir[0], "wind_speed": wsp if ns > 1 else wsp[0], "ustar": us if ns > 1 else us[0],
            "mol": mol if ns > 1 else mol[0]}
-    if rng.random() < 0.5:
+    tk = str(rng.choice(["none", "iso", "unpadded_hours", "repeated", "descending", "labels"]))
+    if tk == "iso":
         met["timestamps"] = [f"2024-02-{d + 1:02d}T06:00" for d in range(ns)]
+    elif tk == "unpadded_hours":  # do not sort lexicographically in series order
+        met["timestamps"] = [f"2024-06-01 {8 + d}:00" for d in range(ns)]
+    elif tk == "repeated":
+        met["timestamps"] = [f"day{d // 2}" for d in range(ns)]
+    elif tk == "descending":
+        met["timestamps"] = [f"2024-02-{28 - d:02d}" for d in range(ns)]
+    elif tk == "labels":
+        met["timestamps"] = ["morning", "noon", "evening", "night"][:ns]
     dom = {"nx": nx, "ny": ny, "xmax": xmax, "ymax": ymax, "nz": int(rng.integers(4, 9)), "ref_lat": ref_lat, "ref_lon": ref_lon,
            "modes": [16, 12]}
     if cache_mode != "on_default_halo":
@@ -82,7 +91,9 @@ def make_config(rng, nt, ns, cache_mode, twins, repeats):
     raw = {"domain": dom, "towers": towers, "met": met,
            "solver": {"closure": str(rng.choice(["MOST", "MOSTM"])), "footprint": True, "precision": str(rng.choice(["single", "double"]))},
            "parallel": {"use_cache": cache_mode != "off", "max_workers": 2}}
-    return parse_config_dict(raw), raw
+    raw["_timestamps_kind"] = tk
+    cfg = parse_config_dict({k: v for k, v in raw.items() if not k.startswith("_")})
+    return cfg, raw
 
 
 def run_case(case):
@@ -282,6 +293,7 @@ def run_case(case):
         clean_cache()
         if os.path.exists(logf):
             os.unlink(logf)
+    buckets[f"timestamps:{raw['_timestamps_kind']}"] = 1
     buckets.update({f"shape:{nt}x{ns}": 1, f"cache:{cache_mode}": 1, f"parent_threads:{parent_threads}": 1})
     buckets[f"towers:{twins}"] = 1
     if repeats:
